@@ -279,6 +279,58 @@ MUTANTS += [
     ("c20-split-mutates-shape", ["C20"], [(TU, "    new_shape = torch.Size(shape) + x.shape[1:]\n    return torch.reshape(x, new_shape)", "    x *= 1\n    new_shape = torch.Size(shape) + x.shape[1:]\n    return torch.reshape(x, new_shape)")], "UT-PURE"),
 ]
 
+LU = T + "lu.py"
+QR = T + "qr.py"
+SVD = T + "svd.py"
+ORT = T + "orthogonal.py"
+STD = T + "standard.py"
+MUTANTS += [
+    # ---- C01 ----
+    ("c01-coupling-drop-identity-ld", ["C01"], [(CPL, "            logabsdet += logabsdet_identity\n", "")], "LD-NODROP"),
+    ("c01-multiscale-drop", ["C01"], [(TB, "            all_outputs.append(outputs.reshape(batch_size, -1))\n            total_logabsdet += logabsdet", "            all_outputs.append(outputs.reshape(batch_size, -1))")], "LD-NODROP"),
+    ("c01-conv-drop", ["C01"], [(T + "conv.py", "        return outputs, torchutils.sum_except_batch(logabsdet)", "        return outputs, torchutils.sum_except_batch(logabsdet * 0)")], None),
+    ("c01-flow-drop", ["C01", "C03"], [(FB, "        return log_prob + logabsdet", "        return log_prob")], "LD-NODROP"),
+    ("c01-piecewise-coupling-batchdims", ["C01"], [(CPL, "        return outputs, torchutils.sum_except_batch(logabsdet)\n\n    def _piecewise_cdf", "        return outputs, torchutils.sum_except_batch(logabsdet, num_batch_dims=2)\n\n    def _piecewise_cdf")], "LD-SHAPE"),
+    ("c01-affine-sum-dim0", ["C01"], [(CPL, "        logabsdet = torchutils.sum_except_batch(log_scale, num_batch_dims=1)\n        return outputs, logabsdet\n\n    def _coupling_transform_inverse", "        logabsdet = torch.sum(log_scale, dim=0)\n        return outputs, logabsdet\n\n    def _coupling_transform_inverse")], "LD-SHAPE"),
+    ("c01-exp-unreduced", ["C01"], [(NL, "        outputs = torch.exp(inputs)\n        logabsdet = torchutils.sum_except_batch(inputs, num_batch_dims=1)", "        outputs = torch.exp(inputs)\n        logabsdet = torch.log(outputs)")], "LD-SHAPE"),
+    ("c01-glu-flatten", ["C01"], [(NL, "        logabsdet = torchutils.sum_except_batch(torch.log(gate).expand_as(outputs))\n        return outputs, logabsdet\n\n    def inverse", "        logabsdet = torch.log(gate).reshape(-1)\n        return outputs, logabsdet\n\n    def inverse")], "LD-SHAPE"),
+    ("c01-actnorm-no-hw", ["C01"], [(NORM, "            logabsdet = h * w * torch.sum(self.log_scale) * outputs.new_ones(batch_size)", "            logabsdet = torch.sum(self.log_scale) * outputs.new_ones(batch_size)")], "LD-MULT"),
+    ("c01-actnorm-h-only", ["C01"], [(NORM, "            logabsdet = -h * w * torch.sum(self.log_scale) * outputs.new_ones(batch_size)", "            logabsdet = -h * torch.sum(self.log_scale) * outputs.new_ones(batch_size)")], "LD-MULT"),
+    ("c01-conv-no-pixel-sum", ["C01"], [(T + "conv.py", "        logabsdet = logabsdet.reshape(b, h, w)\n\n        return outputs, torchutils.sum_except_batch(logabsdet)", "        logabsdet = logabsdet.reshape(b, h, w)[:, 0, 0]\n\n        return outputs, logabsdet")], "LD-MULT"),
+    ("c01-pointwise-no-numel", ["C01"], [(STD, "            return self._log_abs_scale * torch.Size(batch_shape).numel()", "            return self._log_abs_scale")], "LD-MULT"),
+    ("c01-scalar-logdet", ["C01"], [(LU, "        logabsdet = self.logabsdet() * inputs.new_ones(outputs.shape[0])\n        return outputs, logabsdet", "        logabsdet = self.logabsdet()\n        return outputs, logabsdet")], "LD-SHAPE"),
+    ("c01-uncond-spline-drop", ["C01"], [(SL, "        outputs[inside_interval_mask], logabsdet[inside_interval_mask] = linear_spline(", "        outputs[inside_interval_mask], _ = linear_spline(")], "LD-NODROP"),
+    # ---- C02 ----
+    ("c02-affine-inverse-sign", ["C02"], [(CPL, "        logabsdet = -torchutils.sum_except_batch(log_scale, num_batch_dims=1)", "        logabsdet = torchutils.sum_except_batch(log_scale, num_batch_dims=1)")], "INV-SIGN"),
+    ("c02-leaky-sign", ["C02"], [(NL, "        logabsdet = -self.log_negative_slope * mask", "        logabsdet = self.log_negative_slope * mask")], "INV-SIGN"),
+    ("c02-cauchy-sign", ["C02"], [(NL, "        outputs = torch.tan(np.pi * (inputs - 0.5))\n        logabsdet = -torchutils.sum_except_batch(", "        outputs = torch.tan(np.pi * (inputs - 0.5))\n        logabsdet = torchutils.sum_except_batch(")], "INV-SIGN"),
+    ("c02-rq-inverse-sign", ["C02"], [(SR, "        return outputs, -logabsdet", "        return outputs, logabsdet")], "INV-SIGN"),
+    ("c02-lu-inverse-sign", ["C02", "C11"], [(LU, "        logabsdet = -self.logabsdet()\n        logabsdet = logabsdet * inputs.new_ones(outputs.shape[0])", "        logabsdet = self.logabsdet()\n        logabsdet = logabsdet * inputs.new_ones(outputs.shape[0])")], "INV-SIGN"),
+    ("c02-actnorm-inverse-sign", ["C02"], [(NORM, "            logabsdet = -torch.sum(self.log_scale) * outputs.new_ones(batch_size)", "            logabsdet = torch.sum(self.log_scale) * outputs.new_ones(batch_size)")], "INV-SIGN"),
+    ("c02-bn-inverse-sign", ["C02"], [(NORM, "        logabsdet_ = -torch.log(self.weight) + 0.5 * torch.log(\n            self.running_var + self.eps\n        )", "        logabsdet_ = -torch.log(self.weight) - 0.5 * torch.log(\n            self.running_var + self.eps\n        )")], "INV-SIGN"),
+    ("c02-pointwise-sign", ["C02"], [(STD, "        logabsdet = -self._batch_logabsdet(batch_shape).expand(batch_size)", "        logabsdet = self._batch_logabsdet(batch_shape).expand(batch_size)")], "INV-SIGN"),
+    ("c02-cdf-flag", ["C02"], [(NL, "        return self._spline(inputs, inverse=True)\n\n\nclass PiecewiseQuadraticCDF", "        return self._spline(inputs, inverse=False)\n\n\nclass PiecewiseQuadraticCDF")], "INV-FLAG"),
+    ("c02-ar-flag", ["C02"], [(AR, "    def _elementwise_inverse(self, inputs, autoregressive_params):\n        return self._elementwise(inputs, autoregressive_params, inverse=True)\n\n\nclass MaskedPiecewiseQuadratic", "    def _elementwise_inverse(self, inputs, autoregressive_params):\n        return self._elementwise(inputs, autoregressive_params)\n\n\nclass MaskedPiecewiseQuadratic")], "INV-FLAG"),
+    ("c02-squeeze-guard-4", ["C02"], [(T + "reshape.py", "        if c < self.factor ** 2 or c % self.factor ** 2 != 0:", "        if c < 4 or c % 4 != 0:")], "INV-CONFIG"),
+    ("c02-squeeze-divisor", ["C02"], [(T + "reshape.py", "            batch_size, c // self.factor ** 2, self.factor, self.factor, h, w\n", "            batch_size, c // (2 * self.factor), self.factor, self.factor, h, w\n")], "INV-CONFIG"),
+    ("c02-scale-relu", ["C02"], [(AR, "        scale = F.softplus(unconstrained_scale) + self._epsilon\n        log_scale = torch.log(scale)\n        outputs = (inputs - shift) / scale", "        scale = F.softplus(unconstrained_scale) - self._epsilon\n        log_scale = torch.log(scale)\n        outputs = (inputs - shift) / scale")], "INV-POS"),
+    ("c02-general-activation-clamp", ["C02"], [(CPL, "GENERAL_SCALE_ACTIVATION = lambda x : (softplus(x) + 1e-3).clamp(0, 3)", "GENERAL_SCALE_ACTIVATION = lambda x : (softplus(x) - 1e-3).clamp(0, 3)")], "INV-POS"),
+    ("c02-bn-weight-no-eps", ["C02"], [(NORM, "        return F.softplus(self.unconstrained_weight) + self.eps", "        return F.relu(self.unconstrained_weight) + self.eps * 0")], "INV-POS"),
+    # ---- C11 ----
+    ("c11-lu-logdet-wrong-diag", ["C11"], [(LU, "        return torch.sum(torch.log(self.upper_diag))", "        return torch.sum(torch.log(F.softplus(self.unconstrained_upper_diag)))")], "LIN-LOGDET"),
+    ("c11-lu-upper-diag-raw", ["C11"], [(LU, "        upper[self.diag_indices[0], self.diag_indices[1]] = self.upper_diag", "        upper[self.diag_indices[0], self.diag_indices[1]] = self.unconstrained_upper_diag")], "LIN-LOGDET"),
+    ("c11-qr-diag-no-exp", ["C11"], [(QR, "        upper[self.diag_indices[0], self.diag_indices[1]] = torch.exp(\n            self.log_upper_diag\n        )", "        upper[self.diag_indices[0], self.diag_indices[1]] = F.softplus(\n            self.log_upper_diag\n        )")], "LIN-LOGDET"),
+    ("c11-svd-inverse-mul", ["C11"], [(SVD, "        outputs /= self.diagonal", "        outputs /= self.diagonal + self.eps")], "LIN-LOGDET"),
+    ("c11-svd-weight-inverse", ["C11"], [(SVD, "        diagonal_inv = torch.diag(torch.reciprocal(self.diagonal))", "        diagonal_inv = torch.diag(self.diagonal)")], "LIN-LOGDET"),
+    ("c11-diag-not-positive", ["C11"], [(SVD, "        return self.eps + F.softplus(self.unconstrained_diagonal)", "        return self.eps + self.unconstrained_diagonal")], "LIN-POS"),
+    ("c11-householder-not-reversed", ["C11"], [(ORT, "        reverse_idx = torch.arange(self.num_transforms - 1, -1, -1)", "        reverse_idx = torch.arange(0, self.num_transforms)")], "ORTH-REV"),
+    ("c11-householder-skip-first", ["C11"], [(ORT, "        reverse_idx = torch.arange(self.num_transforms - 1, -1, -1)", "        reverse_idx = torch.arange(self.num_transforms - 1, 0, -1)")], "ORTH-REV"),
+    ("c11-reflection-coefficient", ["C11"], [(ORT, "temp = torch.ger(temp, (2.0 / squared_norm) * q_vector)  # Outer product.", "temp = torch.ger(temp, (1.0 / squared_norm) * q_vector)  # Outer product.")], "ORTH-REV"),
+    ("c11-conv-override-weight", ["C11"], [(T + "conv.py", "    def forward(self, inputs, context=None):\n        if inputs.dim() != 4:", "    def weight(self):\n        return self.permutation(super().weight())[0]\n\n    def forward(self, inputs, context=None):\n        if inputs.dim() != 4:")], "LIN-LOGDET"),
+    ("c11-naive-logdet-other", ["C11"], [(LIN, "        return torchutils.logabsdet(self._weight)\n", "        return torchutils.logabsdet(self._weight.t() @ self._weight) / 1.0\n")], "LIN-LOGDET"),
+    ("c11-abstract-accessor", ["C11"], [(QR, "    def weight_inverse(self):", "    def _weight_inverse_unused(self):")], "LIN-COMPLETE"),
+]
+
 BENIGN = [
     ("b-c06-rename-local", ["C06"], [(MADE1, "        prev_out_degrees = self.initial_layer.degrees\n        for _ in range(num_blocks):", "        prev_out_degrees = self.initial_layer.degrees\n        for _blk in range(num_blocks):")]),
     ("b-c06-guard-form", ["C06"], [(MADE1, "if torch.all(self.degrees >= in_degrees).item() != 1:", "if not torch.all(in_degrees <= self.degrees):")]),
@@ -318,5 +370,10 @@ BENIGN = [
     ("b-c09-rename-locals", ["C09", "C17"], [(SR, "    cumwidths = torch.cumsum(widths, dim=-1)\n    cumwidths = F.pad(cumwidths, pad=(1, 0), mode=\"constant\", value=0.0)\n    cumwidths = (right - left) * cumwidths + left\n    cumwidths[..., 0] = left\n    cumwidths[..., -1] = right\n    widths = cumwidths[..., 1:] - cumwidths[..., :-1]", "    xk = torch.cumsum(widths, dim=-1)\n    xk = F.pad(xk, pad=(1, 0), mode=\"constant\", value=0.0)\n    xk = (right - left) * xk + left\n    xk[..., 0] = left\n    xk[..., -1] = right\n    cumwidths = xk\n    widths = cumwidths[..., 1:] - cumwidths[..., :-1]")]),
     ("b-c20-repeat-interleave", ["C20"], [(TU, "    shape = x.shape\n    x = x.unsqueeze(1)\n    x = x.expand(shape[0], num_reps, *shape[1:])\n    return merge_leading_dims(x, num_dims=2)", "    return x.repeat_interleave(num_reps, dim=0)")]),
     ("b-c20-ceil-spelling", ["C20"], [(TU, "    midpoint = features // 2 if features % 2 == 0 else features // 2 + 1", "    midpoint = (features + 1) // 2")]),
+    ("b-c01-sum-except-batch-explicit", ["C01"], [(NL, "        logabsdet = torchutils.sum_except_batch(inputs, num_batch_dims=1)\n\n        return outputs, logabsdet", "        logabsdet = torchutils.sum_except_batch(inputs)\n\n        return outputs, logabsdet")]),
+    ("b-c01-discard-zero-logdet", ["C01"], [(T + "conv.py", "        inputs, _ = self.permutation(inputs)", "        inputs, _unused = self.permutation(inputs)")]),
+    ("b-c02-neg-spelling", ["C02"], [(CPL, "        logabsdet = -torchutils.sum_except_batch(log_scale, num_batch_dims=1)", "        logabsdet = 0 - torchutils.sum_except_batch(log_scale, num_batch_dims=1)")]),
+    ("b-c02-neg-inside", ["C02"], [(NL, "        logabsdet = -self.log_negative_slope * mask", "        logabsdet = self.log_negative_slope * (-mask)")]),
+    ("b-c11-flip", ["C11"], [(ORT, "        reverse_idx = torch.arange(self.num_transforms - 1, -1, -1)\n        return self._apply_transforms(inputs, self.q_vectors[reverse_idx])", "        return self._apply_transforms(inputs, self.q_vectors.flip(0))")]),
     ("b-c14-guard-order", ["C14"], [(NORM, "if self.training and not self.initialized:", "if not self.initialized and self.training:")]),
 ]
